@@ -159,6 +159,10 @@ where
     {
         let sampler = sut(|| {
             cpu::with_host(sc.host, || {
+                if sc.mode == Mode::Oops && sc.rng.seed % 3 == 0 {
+                    // the plain constructor (one-occurrence mode with default parameters)
+                    return lightmotif::sampler::Sampler::new(&data, width, &mut rng);
+                }
                 let mut b = SamplerBuilder::new(&data);
                 b.width(width);
                 match &sc.mode {
